@@ -165,7 +165,7 @@ func (c *Ctx) runCase(name string, i int, fn func(k *Case)) {
 	func() {
 		defer func() {
 			if r := recover(); r != nil {
-				k.Fail("panic", "panic:uncaught", "uncaught panic in case: %v\n%s", r, trimStack(debug.Stack()))
+				k.Fail("panic", "panic:uncaught:"+PanicClass(r), "uncaught panic in case: %v\n%s", r, fullStack(debug.Stack()))
 			}
 		}()
 		fn(k)
@@ -354,6 +354,20 @@ func TopFrame(stack string) string {
 		}
 	}
 	return "?"
+}
+
+func fullStack(b []byte) string {
+	lines := strings.Split(string(b), "\n")
+	for i, l := range lines {
+		if strings.HasPrefix(l, "panic(") {
+			lines = lines[i+2:]
+			break
+		}
+	}
+	if len(lines) > 24 {
+		lines = lines[:24]
+	}
+	return strings.Join(lines, "\n")
 }
 
 func trimStack(b []byte) string {
